@@ -24,6 +24,11 @@
  *   not write the rule).  Invariants talk about these scalars instead of dereferencing rule->args[verif_gk] (each
  *   dereference inside an invariant costs six generated pointer checks, three times). */
 unsigned char *verif_argblk; unsigned verif_argn; _Bool verif_arg_le;
+#ifdef VERIF_FINDER
+/* finder build (plain cbmc, the args loop unwound for a rule with one argument match on index 0): the inputs are copied
+ * into in_* variables by explicit assignments so that they can be read off the counterexample trace and replayed natively */
+unsigned char in_buf[REF_MAXS + 1]; int in_len, in_kind, in_atype, in_alen, in_a0, in_a1, in_a2, in_a3, in_a4, in_a5, in_a6, in_a7;
+#endif
 /* representation -> specification: kind and length of an argument match */
 #define C07_KIND(l) (((l) & BUS_MATCH_ARG_IS_PATH) ? REF_ARG_PATH : ((l) & BUS_MATCH_ARG_NAMESPACE) ? REF_ARG_NAMESPACE : REF_ARG_PLAIN)
 #define C07_LEN(l) ((long) ((l) & ~BUS_MATCH_ARG_FLAGS))
@@ -77,6 +82,13 @@ int verif_stub_iter_get_arg_type (DBusMessageIter *it)
       s[n] = 0; verif_cur_v[REF_MAXS] = 0;
     }
   verif_cur_type = t; verif_cur_len = (int) n;
+#ifdef VERIF_FINDER
+  /* replayable inputs only: STRING arguments over the alphabet { / a . } (an arbitrary byte string is not a valid D-Bus string / object path) */
+  __CPROVER_assume (t != DBUS_TYPE_OBJECT_PATH);
+  for (int k = 0; k < REF_MAXS; k++) __CPROVER_assume (verif_cur_v[k] == 0 || verif_cur_v[k] == '/' || verif_cur_v[k] == 'a' || verif_cur_v[k] == '.');
+  if (verif_it_calls == 0) { in_atype = t; in_alen = (int) n; in_a0 = (unsigned char) verif_cur_v[0]; in_a1 = (unsigned char) verif_cur_v[1]; in_a2 = (unsigned char) verif_cur_v[2]; in_a3 = (unsigned char) verif_cur_v[3];
+                             in_a4 = (unsigned char) verif_cur_v[4]; in_a5 = (unsigned char) verif_cur_v[5]; in_a6 = (unsigned char) verif_cur_v[6]; in_a7 = (unsigned char) verif_cur_v[7]; }
+#endif
   if (verif_it_calls == verif_gk)
     {
       verif_rec_type = t; verif_rec_len = (int) n;
@@ -171,6 +183,12 @@ void harness (void)
     { verif_gk_set = 1; verif_gk_kind = C07_KIND (r.arg_lens[verif_gk]); verif_gk_len = C07_LEN (r.arg_lens[verif_gk]); }
   verif_w = -1; verif_it_calls = 0; verif_it_pos = 0; verif_it_end = 0; verif_rec_type = 0; verif_rec_len = 0; verif_cur_type = 0; verif_cur_len = 0;
 
+#ifdef VERIF_FINDER
+  __CPROVER_assume (r.flags == BUS_MATCH_ARGS && n == 1 && r.args[0] != NULL && FD.p == NULL);
+  in_len = (int) B.len; in_kind = C07_KIND (r.arg_lens[0]);
+  for (int k = 0; k <= REF_MAXS; k++) { __CPROVER_assume (B.v[k] == 0 || B.v[k] == '/' || B.v[k] == 'a' || B.v[k] == '.'); in_buf[k] = (unsigned char) B.v[k]; }
+  __CPROVER_assume (in_kind != REF_ARG_NAMESPACE || (B.len == 1 && B.v[0] == 'a') || (B.len == 3 && B.v[0] == 'a' && B.v[1] == '.' && B.v[2] == 'a'));   /* the parser validates the namespace value */
+#endif
   dbus_bool_t ret = match_rule_matches (&r, g_sender, g_addressed, g_msg, (BusMatchFlags) am);
 
   /* ---- specification (conjunct by conjunct; the same text as ref_header_matches in spec/match_ref.h, on the ghost
